@@ -373,6 +373,6 @@ def run(ctx: Ctx, rep: Report, tier: str):
     rep.rule("C20.S10", "the merged listing reports cloud-only files even when the local folder is gone: the remote half of smart_listdir_path does not depend on the local "
              "listing succeeding", 1)
     section(rep, lambda: remote_listing_independent_of_local(ctx, rep, "C20.S10"))
-    from rules.decisions import decision_table
-    rep.rule("C20.S11", "decision table of the on-demand gate: every action site of SmartSyncManager.pre_sync is reached under exactly the recorded path condition", 4)
-    section(rep, lambda: decision_table(ctx, rep, "C20.S11", ['SmartSyncManager.pre_sync']))
+    from rules.decisions import decision_table, table_sites
+    rep.rule("C20.S11", "decision table of the on-demand gate: every action site of SmartSyncManager.pre_sync is reached under exactly the recorded path condition", table_sites("C20"))
+    section(rep, lambda: decision_table(ctx, rep, "C20.S11", "C20"))
